@@ -190,6 +190,11 @@ func c07(tier string, args []string) int {
 		one := []Batch{{ID: "batch-a", Tasks: world.SimpleTasks("ba", []byte("payload a"))}, {ID: "batch-b", Tasks: world.SimpleTasks("bb", []byte("payload b"))}}
 		jobs = append(jobs, job{n: 3, t: 2, cfgs: []SignCfg{{N: 3, T: 2, Batches: one, Proposers: []int{2}, Silent: []int{2}, Lag: []int{0, 1, 2}, LagWhole: true, MaxStates: 400000}}})
 	}
+	// the proposer's clock is an hour ahead of everybody else's (two batches, every order of answers)
+	{
+		two := []Batch{{ID: "batch-a", Tasks: world.SimpleTasks("ca", []byte("payload a"))}, {ID: "batch-b", Tasks: world.SimpleTasks("cb", []byte("payload b"))}}
+		jobs = append(jobs, job{n: 3, t: 2, cfgs: []SignCfg{{N: 3, T: 2, Batches: two, Proposers: []int{0}, ProposerAhead: time.Hour, MaxStates: 400000}}})
+	}
 	// ... and one file of the largest size a proposal can carry (the reconstruction broadcast
 	// repeats the payload in a slightly longer envelope)
 	if pl := largestProposablePayload(); pl != nil {
